@@ -28,7 +28,7 @@ Produce {flavour}. Requirements:
  3. It needs something specific to manifest (see the flavour above) — not something every ordinary run shows at once.
  4. Write a DEMONSTRATION: a new Go test file (or small program) that FAILS with your change and PASSES on the unmodified tree, exercising the real code (public API or white-box in-package test). Keep it deterministic and fast (< 60 s).
  5. Deliver in {wt}/OUT/ : `patch.diff` (output of `git diff` restricted to your non-test source change only, WITHOUT the demonstration), the demonstration file(s) (e.g. `demo_test.go` plus a line in notes saying into which package directory it must be copied and how to run it), and `notes.md`: what you changed and why it breaks the property, what exactly is needed for it to manifest, the commands you ran and their results (build, existing tests, demo with and without the change).
- 6. Leave the worktree with your change applied (uncommitted) and the demo file in place. Do not commit.
+ 6. Leave the worktree with your change applied (uncommitted) and the demo file in place. Do not commit. NEVER use `git stash` (the stash is shared by all worktrees of this repository and other people work in sibling worktrees): to test the unmodified tree use `git diff > OUT/patch.diff; git apply -R OUT/patch.diff; ...; git apply OUT/patch.diff`.
 Answer with a 10-line summary when done.""")
 import os
 os.makedirs(wt + "/OUT", exist_ok=True)
